@@ -555,3 +555,106 @@ def _mut_reply_before_append(fn):
             body.insert(idx_loop[0], st)
             return 1
     return 0
+
+
+# ----------------------------------------------------------------------------------------- append_entries with dynamic membership (O10.3)
+def _member_havoc(so):
+    def havoc(I, fr):
+        from pyvc.loops import havoc_like
+        ctx = I.ctx
+        for nm in ('otherNodes', 'raftNextIndex', 'raftMatchIndex', 'lastResponseTime'):
+            havoc_like(ctx, so.get(nm), nm)
+        v = so.cell('otherNodes')
+        ctx.setcell(so.get('otherNodes'), NSet(v.bits[:so.U] + [False]))
+        ctx.ghost['membership'] = []
+    return havoc
+
+
+def _rollback_loop_spec(so, old, E, p):
+    """loop #1: `for entry in reversed(prevEntries[matched+1:])` - must visit exactly the entries about to be deleted, last first"""
+    olog = old.get('raftLog')
+
+    def inv(I, fr, it):
+        out = []
+        if not is_sym(it['k']) and it['k'] == 0:
+            seq = it['seq']
+            mt = to_z3(fr.locals['matched'])
+            last0 = olog.last_idx()
+            j = FreshInt('rj')
+            out.append(('visits-exactly-the-deleted-entries', Eq(seq.n, last0 - to_z3(p) - mt)))
+            e = seq.get(j)
+            out.append(('visits-them-last-first', Implies(And(j >= 0, j < to_z3(seq.n)), And(Eq(e[1], last0 - j), Eq(e[2], olog.term_at(last0 - j)),
+                                                                                           Eq(e[0].id, olog.cmd_at(last0 - j))))))
+        return out
+
+    def check(I, fr, it):
+        ent = fr.locals.get('entry')
+        if not isinstance(ent, tuple) or not is_sym(it['k']):
+            return []
+        mem = I.ctx.glist('membership')
+        cid = to_z3(ent[0].id)
+        ismem = _ctype(cid) == 2
+        out = [('reverses-iff-membership-entry', Iff(ismem, True) if mem else Not(ismem)),
+               ('at-most-one-change-per-entry', len(mem) <= 1)]
+        for kind, node, rev in mem:
+            out.append(('applied-in-reverse-direction', rev is True))
+        return out
+    return LoopSpec('C10:O10.3.rollback-loop', inv, havoc=_member_havoc(so), check=check)
+
+
+def _apply_changes_loop_spec(so, old, E, p):
+    """loop #3: `for entry in newEntries[matched:]` - must visit exactly the appended entries, in order"""
+    def inv(I, fr, it):
+        out = []
+        if not is_sym(it['k']) and it['k'] == 0:
+            seq = it['seq']
+            mt = to_z3(fr.locals['matched'])
+            j = FreshInt('aj')
+            out.append(('visits-exactly-the-appended-entries', Eq(seq.n, to_z3(E.n) - mt)))
+            e = seq.get(j)
+            out.append(('visits-them-in-order', Implies(And(j >= 0, j < to_z3(seq.n)), And(Eq(e[1], to_z3(p) + 1 + mt + j), Eq(e[2], E.tf(mt + j)), Eq(e[0].id, E.cf(mt + j))))))
+        return out
+
+    def check(I, fr, it):
+        ent = fr.locals.get('entry')
+        if not isinstance(ent, tuple) or not is_sym(it['k']):
+            return []
+        mem = I.ctx.glist('membership')
+        ismem = _ctype(to_z3(ent[0].id)) == 2
+        out = [('applies-iff-membership-entry', Iff(ismem, True) if mem else Not(ismem)), ('at-most-one-change-per-entry', len(mem) <= 1)]
+        for kind, node, rev in mem:
+            out.append(('applied-in-forward-direction', rev is False))
+        return out
+    return LoopSpec('C10:O10.3.apply-loop', inv, havoc=_member_havoc(so), check=check)
+
+
+@unit(name='msg.append_entries.membership', relpath=MOD, qual=[HANDLER], props=['C10'],
+      doc='O10.3: with dynamic membership a follower reverses, last first, exactly the membership entries it is about to delete and applies, '
+          'in order, exactly the membership entries it appends (the member set follows the log: effective when appended, reverted '
+          'when truncated)',
+      assumptions=['R_AE', 'A-CMD'], trusted=['T-TRANSPORT', 'T-PICKLE'],
+      canaries=[('rollback-forward', lambda mod: mutate_function(mod, HANDLER, _mut_rollback_forward), ['O10.3.rollback-loop.init.visits-them-last-first'])])
+def msg_append_entries_membership(ctx):
+    from .so_apply import APPLY_REG
+    so = SO(ctx, min(UNIVERSE(), 3))
+    so.assume_inv()
+    ctx.assume(so.conf('dynamicMembershipChange'))
+    node = peer(ctx, so)
+    msg, mt, lc, ex = ae_message(ctx, so, 'regular')
+    old = so.snapshot()
+    E, p = ex['E'], ex['p']
+    loops = {HANDLER: loop_table(so.mod, HANDLER, {0: _match_loop_spec(so, old, E, p), 1: _rollback_loop_spec(so, old, E, p),
+                                                    2: _append_loop_spec(so, old, E, p), 3: _apply_changes_loop_spec(so, old, E, p)})}
+    reg = dict(APPLY_REG)
+    I = make_interp(ctx, so, registry=reg, inline=INL, loops=loops)
+    kindr, v = run_method(I, so, HANDLER, [node, msg])
+    ctx.prove(kindr == 'ok', 'C10:O10.3.no-exception', info=getattr(v, 'typ', None))
+
+
+def _mut_rollback_forward(fn):
+    cnt = 0
+    for n in ast.walk(fn):
+        if isinstance(n, ast.For) and isinstance(n.iter, ast.Call) and isinstance(n.iter.func, ast.Name) and n.iter.func.id == 'reversed':
+            n.iter = n.iter.args[0]
+            cnt += 1
+    return cnt
